@@ -20,6 +20,31 @@ impl RaftIndexInnerManager {
     }
 }
 
+/// A-RECORDSIZE: every index record the store encodes fits a 32-bit length prefix
+pub open spec fn records_fit() -> bool { forall|d: RaftIndexDto| (#[trigger] msg_of(d)).pb_bytes().len() < 0x1_0000_0000 }
+
+/// what one save of the catalogue / vote / membership record does to the open index file (o before, n after), when no I/O
+/// operation fails: memory and file hold exactly `index` behind the untouched last-applied header
+pub open spec fn written(o: RaftIndexInnerManager, n: RaftIndexInnerManager, index: RaftIndexDto) -> bool {
+    n.file.io_faulty() == o.file.io_faulty() && n.raft_index == index && n.last_applied_log == o.last_applied_log
+    && (!o.file.io_faulty() ==> n.file.contents().len() >= 8
+        && n.file.contents().take(8) == o.file.contents().take(8)
+        && (forall|la: u64| o.file.contents().take(8) == be64(la) ==> #[trigger] holds_dto(n.file.contents(), la, index)))
+}
+/// ... and what one save of the last-applied index does
+pub open spec fn applied_written(o: RaftIndexInnerManager, n: RaftIndexInnerManager, la: u64) -> bool {
+    n.file.io_faulty() == o.file.io_faulty() && n.last_applied_log == la && n.raft_index == o.raft_index
+    && (!o.file.io_faulty() ==> n.file.contents().len() >= 8
+        && n.file.contents().take(8) == be64(la) && n.file.contents().skip(8) == o.file.contents().skip(8))
+}
+/// the caller changed fields of the in-memory record and saved it: the file holds what memory holds (no I/O fault)
+pub open spec fn saved(o: Box<RaftIndexInnerManager>, n: Box<RaftIndexInnerManager>) -> bool {
+    n.file.io_faulty() == o.file.io_faulty() && n.last_applied_log == o.last_applied_log
+    && (!o.file.io_faulty() ==> n.file.contents().len() >= 8
+        && n.file.contents().take(8) == o.file.contents().take(8)
+        && (forall|la: u64| o.file.contents().take(8) == be64(la) ==> #[trigger] holds_dto(n.file.contents(), la, n.raft_index)))
+}
+
 /// a file image determines the values it holds
 pub proof fn lemma_holds_unique(c: Seq<u8>, la1: u64, m1: RaftIndex, la2: u64, m2: RaftIndex)
     requires holds(c, la1, m1), holds(c, la2, m2)
